@@ -36,4 +36,5 @@ def section07():
 exec(open(os.path.join(HERE, "gen_bifs_tables.py")).read())
 exec(open(os.path.join(HERE, "gen_bifs_time.py")).read())
 exec(open(os.path.join(HERE, "gen_bifs_c14.py")).read())
-print(HEADER); print(section08()); print(); print(section07()); print(); print(section_tables()); print(); print(section_time()); print(); print(section_c14())
+exec(open(os.path.join(HERE, "gen_bifs_c10.py")).read())
+print(HEADER); print("// Zero-annotation safety sweep over every built-in function without an explicit contract:\n// for all argument kinds (any well-formed value, typed or still pending), no panic.\n//@ sweep C18 : BIF_.*\n"); print(section08()); print(); print(section07()); print(); print(section_tables()); print(); print(section_time()); print(); print(section_c14()); print(); print(section_c10())
